@@ -550,7 +550,31 @@ func ruleC16Only(r *Run) {
 		}
 		r.Check("C16-USES", fmt.Sprintf("(*Router).Resource$cb:Use#%d", i+1), w.InstrPos(in), okRoute && okH, map[bool]string{true: "per-action middleware Uses()[name] is attached to the route created for that same name in this iteration", false: "per-action middleware is attached to another route or taken under another key"}[okRoute && okH])
 	}
-	r.Floor("C16-USES", 1)
+	// the map returned by the controller's Uses() belongs to the controller: Resource only reads it
+	nW := 0
+	for _, f := range withAnon(res) {
+		eachInstr(f, func(in ssa.Instruction) {
+			var mp ssa.Value
+			switch x := in.(type) {
+			case *ssa.MapUpdate:
+				mp = x.Map
+			case *ssa.Call:
+				if isBuiltin(x, "delete") || isBuiltin(x, "clear") {
+					mp = x.Call.Args[0]
+				}
+			}
+			if mp == nil {
+				return
+			}
+			if strings.HasSuffix(types.TypeString(mp.Type(), nil), "map[string][]"+modPath+".HandlerFunc") {
+				nW++
+				r.Check("C16-USES", fmt.Sprintf("%s:writes the Uses() map#%d", FuncName(f), nW), w.InstrPos(in), false,
+					"Resource modifies the per-action middleware map it got from the controller's Uses(): a controller that returns the same map again (second Resource call, another router) loses its per-action middleware")
+			}
+		})
+	}
+	r.Check("C16-USES", "(*Router).Resource:Uses() map is read-only", res.Pos(), nW == 0, "the per-action middleware map is only read")
+	r.Floor("C16-USES", 2)
 	// C16-REJECT
 	gcalls := callsToFn(res, grp)
 	r.Check("C16-REJECT", "(*Router).Resource:Group call", res.Pos(), len(gcalls) == 1, fmt.Sprintf("%d Group call(s)", len(gcalls)))
